@@ -53,6 +53,10 @@ def build(profile="release"):
         sub = profile
         if profile == "release":
             cmd.append("--release")
+        elif profile == "release-nohooks":
+            # the program as shipped: guard off (used to confirm that the hooks do not change behaviour)
+            cmd = ["cargo", "build", "--offline", "--release", "--manifest-path", os.path.join(REPO, "Cargo.toml")]
+            sub = "release"
         elif profile == "tsan":
             cmd = ["cargo", "+nightly", "build", "--offline", "--features", "verif", "-Zbuild-std", "--target",
                    "x86_64-unknown-linux-gnu", "--manifest-path", os.path.join(REPO, "Cargo.toml")]
